@@ -81,6 +81,8 @@ class FinishedPdu(AbstractFileDirectiveBase):
             self.fault_location = self._params.fault_location
         if params.file_store_responses is not None:
             self.file_store_responses = self._params.file_store_responses
+        # Without fault location and filestore responses no setter has run: the CRC16 still counts
+        self._calculate_directive_field_len()
 
     @classmethod
     def success_pdu(cls, pdu_conf: PduConfig) -> FinishedPdu:
